@@ -81,6 +81,10 @@ def recv_path(v) -> str:
             b = recv_path(a[0])
             return a[1] if b == "self" else f"{b}.{a[1]}"
         if k == "elem":
+            if not isinstance(a[0], (Sym, Obj, Phi)):
+                import re as _re
+                m = _re.search(r"self\.(\w+)", show(a[0]))
+                return (m.group(1) if m else "local") + "[]"
             return recv_path(a[0]) + "[]"
         if k == "item":
             key = a[1].value if isinstance(a[1], Const) else "?"
@@ -225,3 +229,55 @@ def render_sites(program: Program):
 def skeletons(program: Program):
     render_sites(program)
     return program.__dict__["_skeletons"]
+
+
+# ----------------------------------------------------------------------------- statement kinds
+def kind_states(program: Program) -> dict:
+    """concrete valuations of the statement-kind predicates of QueryBuilder.get_sql (clause presence stays symbolic)"""
+    tbl = program.cls("Table")
+
+    def T(name):
+        return Obj(tbl, {}, name)
+
+    ne = lambda n: Sym("nonempty", (n,))  # noqa: E731
+    from .symex import ListV
+    empty = ListV((), "list")
+    base = {"_update_table": Const(None), "_insert_table": Const(None), "_delete_from": Const(False),
+            "_select_into": Const(False), "_replace": Const(False)}
+    return {
+        "SELECT": {**base, "_selects": ne("_selects"), "_on_conflict": Const(False)},
+        "SELECT_INTO": {**base, "_selects": ne("_selects"), "_insert_table": T("_insert_table"), "_select_into": Const(True)},
+        "INSERT_VALUES": {**base, "_insert_table": T("_insert_table"), "_values": ne("_values")},
+        "INSERT_SELECT": {**base, "_insert_table": T("_insert_table"), "_values": empty, "_selects": ne("_selects")},
+        "REPLACE": {**base, "_insert_table": T("_insert_table"), "_values": ne("_values"), "_replace": Const(True)},
+        "UPDATE": {**base, "_update_table": T("_update_table"), "_updates": ne("_updates"), "_selects": empty},
+        "DELETE": {**base, "_delete_from": Const(True), "_selects": empty},
+    }
+
+
+def dialect_init_consts(c: ClassInfo) -> dict:
+    """attributes assigned to constants / empty lists in the own __init__ of the dialect classes along the MRO"""
+    from .symex import ListV
+    out = {}
+    for k in c.mro:
+        if not k.module.short.startswith("dialects."):
+            continue
+        f = k.methods.get("__init__")
+        if f is None:
+            continue
+        for n in ast.walk(f.node):
+            tv = None
+            if isinstance(n, ast.Assign):
+                tv = (n.targets, n.value)
+            elif isinstance(n, ast.AnnAssign) and n.value is not None:
+                tv = ([n.target], n.value)
+            if tv is None:
+                continue
+            for t in tv[0]:
+                if isinstance(t, ast.Attribute) and isinstance(t.value, ast.Name) and t.value.id == f.params[0]:
+                    v = tv[1]
+                    if isinstance(v, ast.Constant):
+                        out.setdefault(t.attr, Const(v.value))
+                    elif isinstance(v, (ast.List, ast.Tuple)) and not v.elts:
+                        out.setdefault(t.attr, ListV((), "list"))
+    return out
